@@ -71,3 +71,9 @@ pub fn run(which: &str) {
         _ => eprintln!("unknown probe"),
     }
 }
+
+pub fn handles() {
+    use cao_lang::prelude::Handle;
+    use std::str::FromStr;
+    println!("from_u64(5)={} from_u32(0)={} from_str(foo)={}", Handle::from_u64(5).value(), Handle::from_u32(0).value(), Handle::from_str("foo").unwrap().value());
+}
